@@ -4,8 +4,9 @@
    calculus of Jit/Total.v (a variant for every while loop; the invariants are those of the safety proofs).  This is what
    makes "every public result is a deterministic function of the arguments" a statement about a RESULT: a kernel that spins
    (Inv/Total_sanity.v: jitrestrict with one cursor increment deleted is still provably SAFE, and provably never returns)
-   has no such proof.  Floats are exact rationals here: _overlap_split advances by a float addition, and with IEEE doubles
-   an increment below half an ulp of the running time is absorbed - see the known finding / fix recorded for C15. *)
+   has no such proof.  Floats are exact rationals here.  _overlap_split used to advance by a float addition alone; its termination proof held over
+   rationals while IEEE doubles absorbed a small step (segmentation fault, repaired in /repo d86eb2b): the loop is now also bounded
+   by its buffer, and both its safety and its termination proofs are integer arguments that no longer depend on float progress. *)
 From Coq Require Import ZArith List.
 From Verif Require Import Jit.Lang Jit.Interp Gen.Kernels.
 From Verif Require Import Inv.Jitrestrict Inv.Jitrestrict_with_count Inv.Jitin_interval Inv.Jitunion_isets Inv.Jitfix_iset Inv.Jitunion Inv.Cross_correlogram Inv.Jitbin_array Inv.Jitcontinuous_perievent Inv.Jitcount Inv.Jitdiff Inv.Jitintersect Inv.Jitperievent_trigger_average Inv.Jitremove_nan Inv.Jitthreshold Inv.Jitvaluefrom Inv.Overlap_split.
